@@ -77,6 +77,9 @@ RAW_FILES: List[Tuple[str, bytes]] = [
     ('notpy.pyi', b'x: int\n'),
 ]
 
+PRIVACY_PATTERNS = ['**.C', '**.Base', '**.f', '**.m', '**.x', '**._p', '**.D.*', 'pkg.dep', 'pkg.mod', 'pkg.sub', 'pkg.sub.**', 'pkg.mod.*', 'pkg.dep.Base', 'pkg.dep.Base.m',
+                    'dep', 'dep.Base', 'mod.C', 'pkg', '**.I', '**.__init__', '**.E', '*.mod.C.f', '**.UPPER', 'pkg.sib', '**.g', '**.[CD]', 'pkg.*.?']
+
 DEP_SRC = '''"""dep module"""
 __all__ = ['Base', 'X', 'I']
 from zope.interface import Interface
@@ -115,12 +118,17 @@ def _dec(v: Any) -> Union[str, bytes]:
     return v if isinstance(v, str) else bytes.fromhex(v['hex'])
 
 
-def st_tree():
+def st_tree(clean: bool = False):
+    """clean=True: only grammar-generated (parsable) modules, no raw byte files, no size class: used by the
+    rendering checks (C10-C12, C17, C18) which need projects, not robustness inputs."""
     from hypothesis import strategies as st
-    texts = real_texts()
-    big = pysource.big_sources()
-    src = st.one_of(pysource.modules(), pysource.modules(), pysource.modules(), pysource.mutated(texts),
-                    pysource.mutated(texts), st.sampled_from(big))
+    if clean:
+        src = pysource.modules()
+    else:
+        texts = real_texts()
+        big = pysource.big_sources()
+        src = st.one_of(pysource.modules(), pysource.modules(), pysource.modules(), pysource.mutated(texts),
+                        pysource.mutated(texts), st.sampled_from(big))
 
     @st.composite
     def t(draw):
@@ -149,7 +157,7 @@ def st_tree():
                 files['dep.py'] = DEP_SRC
                 files['other/__init__.py'] = draw(src)
                 roots = draw(st.permutations(['pkg', 'dep.py', 'other']))
-        for name, data in draw(st.lists(st.sampled_from(RAW_FILES), max_size=2, unique_by=lambda x: x[0])):
+        for name, data in ([] if clean else draw(st.lists(st.sampled_from(RAW_FILES), max_size=2, unique_by=lambda x: x[0]))):
             d = 'pkg/' if layout != 'flat' else ''
             files[d + name] = {'hex': data.hex()}
             if layout == 'flat' and name.endswith('.py'):
@@ -170,8 +178,12 @@ def st_tree():
             args += ['--pyval-repr-maxlines=2', '--pyval-repr-linelen=10']
         if draw(st.integers(0, 7)) == 0:
             args.append('--no-sidebar')
-        if draw(st.integers(0, 7)) == 0:
-            args.append('--privacy=HIDDEN:**.C')
+        if clean:
+            for lv, pat in draw(st.lists(st.tuples(st.sampled_from(['HIDDEN', 'HIDDEN', 'PRIVATE', 'PUBLIC']), st.sampled_from(PRIVACY_PATTERNS)), max_size=3)):
+                args.append('--privacy=%s:%s' % (lv, pat))
+        elif draw(st.integers(0, 3)) == 0:
+            for lv, pat in draw(st.lists(st.tuples(st.sampled_from(['HIDDEN', 'HIDDEN', 'PRIVATE', 'PUBLIC']), st.sampled_from(PRIVACY_PATTERNS)), min_size=1, max_size=3)):
+                args.append('--privacy=%s:%s' % (lv, pat))
         return {'files': files, 'roots': list(roots), 'args': args, 'meta': draw(st.integers(0, 3)) == 0}
     return t()
 
@@ -230,7 +242,10 @@ def check_tree(case: Dict[str, Any]) -> Tuple[List[Tuple[str, str]], Dict[str, A
                     if not reported:
                         out.append(('module-not-analysed', 'module %s (%s) is in state %s and no "cannot parse" message names its file' % (o.fullName(), sp, o.state)))
         # (c) output inventory
+        single_hidden_root = len(s.rootobjects) == 1 and not s.rootobjects[0].isVisible
         for f in SUMMARY_FILES:
+            if f == 'index.html' and single_hidden_root:
+                continue  # index.html is the page of the only root, which the user asked to hide
             if not os.path.exists(os.path.join(r.out, f)):
                 out.append(('missing-output', 'output file %s was not written' % f))
 
@@ -245,7 +260,7 @@ def check_tree(case: Dict[str, Any]) -> Tuple[List[Tuple[str, str]], Dict[str, A
         for root in s.rootobjects:
             walk(root)
         for f in os.listdir(r.out):
-            if f.endswith('.html') and os.path.getsize(os.path.join(r.out, f)) == 0:
+            if f.endswith('.html') and os.path.exists(os.path.join(r.out, f)) and os.path.getsize(os.path.join(r.out, f)) == 0:
                 out.append(('missing-output', 'page %s is empty' % f))
         base_dump = _dump(s) if case.get('meta') else None
         stdout1 = r.stdout
